@@ -4,3 +4,7 @@ From VF Require Import Base.Prelude.
 
 Definition write_file (truncates : bool) (old new : bytes) : bytes :=
   if truncates then new else new ++ skipn (length new) old.
+
+(* What GetCache gets to parse: the whole file, or (a limited reader, a fixed buffer, one Read) at most [limit] octets of it *)
+Definition read_file (limit : option nat) (file : bytes) : bytes :=
+  match limit with None => file | Some n => firstn n file end.
